@@ -78,6 +78,9 @@ BENIGN = [
     ('b13-dquat-arc-comparison-flipped-text', 'src/f64/dquat.rs', 'if dot > ONE_MINUS_EPS {\n            // 0° singularity: from ≈ to\n            Self::IDENTITY\n        } else if dot < -ONE_MINUS_EPS {\n            // 180° singularity: from ≈ -to\n            use core::f64::consts::PI;', 'if ONE_MINUS_EPS < dot {\n            // 0° singularity: from ≈ to\n            Self::IDENTITY\n        } else if -ONE_MINUS_EPS > dot {\n            // 180° singularity: from ≈ -to\n            use core::f64::consts::PI;', ['C12', 'C20'], 'comparisons written the other way round'),
     ('b14-vec3-sum-closure-operator', 'src/f32/vec3.rs', 'iter.fold(Self::ZERO, |a, &b| Self::add(a, b))', 'iter.fold(Self::ZERO, |a, &b| a + b)', ['C01', 'C18'], 'Sum closure written with the + operator'),
     ('b08-is-normalized-rewritten', 'src/f32/vec3.rs', 'math::abs(self.length_squared() - 1.0) <= 2e-4', '(self.length_squared() - 1.0).abs() <= 2e-4', ['C20', 'C02', 'C07'], 'is_normalized through the inherent abs'),
+    ('b15-swizzle-default-through-let', 'src/swizzles/vec_traits.rs', 'fn xy(self) -> Self {\n        self\n    }', 'fn xy(self) -> Self {\n        let v = self;\n        v\n    }', ['C16'], 'identity swizzle through a temporary'),
+    ('b16-from-slice-doc-reworded', 'src/f32/vec3.rs', '/// # Panics\n    ///\n    /// Panics if `slice` is less than 3 elements long.\n    #[inline]\n    #[must_use]\n    pub const fn from_slice', '/// # Panics\n    ///\n    /// This function will panic when fewer than 3 elements are supplied.\n    #[inline]\n    #[must_use]\n    pub const fn from_slice', ['C18', 'C20'], 'rustdoc of a panic reworded'),
+    ('b17-bvec3-display-fields', 'src/bool/bvec3.rs', 'let arr = self.into_bool_array();\n        write!(f, "[{}, {}, {}]", arr[0], arr[1], arr[2])', 'write!(f, "[{}, {}, {}]", self.x, self.y, self.z)', ['C15', 'C07'], 'Display reads the bool fields directly'),
     ('b09-cross-operand-order', 'src/f32/vec3.rs', 'x: self.y * rhs.z - rhs.y * self.z,', 'x: self.y * rhs.z - self.z * rhs.y,', ['C02', 'C03', 'C07', 'C11'], 'commuted product inside cross'),
 ]
 
